@@ -64,6 +64,9 @@ def formulas(ctx: Ctx, rule="FORMULA"):
         for name, fi, ex in vs:
             for v, why in ex.problems:
                 ctx.undecided(rule, f"{name}", (fi, v) if fi else v, f"return expression not evaluated: {why}: {U(v)}")
+            for k, (call, okf, par) in enumerate(ex.fills):
+                ctx.decide(okf, rule, f"{name}:constant-shape#{k}", (fi, call) if fi else call, f"the constant result has the shape of `{par}`",
+                           f"`{U(call)}` does not have the shape of its argument `{par}` (element-wise converters return one value per input element, in the input's shape)")
             dims = sorted(ex.by_dim)
             want = {1, 2, 3} - ({1} if role == "radius_from_surface" else set())
             missing = want - set(dims)
